@@ -48,17 +48,26 @@ func (c *Channel) read() {
 	defer func() {
 		c.readLoopExited.Store(true)
 
+		verifYield("creader.exit")
+
 		close(readLoopDone)
 	}()
 
 	for {
+		verifYield("creader.top")
+
 		select {
 		case <-done:
 			return
 		default:
 		}
 
+		verifYield("creader.pre_read")
+
 		b, err := c.t.Read()
+
+		verifYield("creader.post_read")
+
 		if err != nil {
 			select {
 			case <-done:
@@ -80,6 +89,8 @@ func (c *Channel) read() {
 			c.l.Criticalf(
 				"encountered error reading from transport during channel read loop. error: %s", err,
 			)
+
+			verifYield("creader.pre_errsend")
 
 			select {
 			case c.Errs <- err:
@@ -110,6 +121,8 @@ func (c *Channel) read() {
 
 		c.Q.Enqueue(b)
 
+		verifYield("creader.post_enqueue")
+
 		if c.ChannelLog != nil {
 			_, err = c.ChannelLog.Write(b)
 			if err != nil {
@@ -125,11 +138,15 @@ func (c *Channel) read() {
 // errors on the Errs channel (these would come from the underlying transport), the error is
 // returned with nil for the byte slice.
 func (c *Channel) Read() ([]byte, error) {
+	verifYield("cop.read_enter")
+
 	select {
 	case err := <-c.Errs:
 		return nil, err
 	default:
 	}
+
+	verifYield("cop.post_errcheck")
 
 	if c.readLoopExited.Load() {
 		return nil, util.ErrConnectionError
